@@ -37,6 +37,10 @@ func (l *LQueue[T]) Dequeue() (item T) {
 	l.mu.Lock()
 	defer l.mu.Unlock()
 
+	if l.n == 0 {
+		return item
+	}
+
 	node := l.list.Shift()
 	l.n--
 	return l.list.Val(node)
